@@ -256,10 +256,11 @@ pub const STEP_BUDGET: u64 = 2000;
 /// Runs `f` (a call into the real library) with panics captured as an outcome.
 #[inline]
 pub fn guard<T>(f: impl FnOnce() -> T) -> Result<T, PanicInfo> {
-    IN_GUARD.with(|g| g.set(true));
+    // (re-entrant: a guarded closure may itself call helpers that guard)
+    let was = IN_GUARD.with(|g| g.replace(true));
     hifitime::verif_hooks::reset(STEP_BUDGET);
     let r = panic::catch_unwind(AssertUnwindSafe(f));
-    IN_GUARD.with(|g| g.set(false));
+    IN_GUARD.with(|g| g.set(was));
     match r {
         Ok(v) => Ok(v),
         Err(_) => {
